@@ -1,0 +1,78 @@
+//go:build verif
+// +build verif
+
+// Contracts for the deductive verifier in /verif (govc). Comment-only: this file adds no code.
+
+package sigbits
+
+// ---- C16: first-difference bits and prefix counts ----
+
+//@ func get64Bits returns (r)
+//@   ensures r == be64(s)
+//@   assigns nothing
+//@   reveal be64
+
+//@ func sFirstDiffBit returns (fd)
+//@   requires len(a) < 1<<27 && len(b) < 1<<27
+//@   ensures fdBytes(a, b, fd)
+//@   assigns nothing
+//@   useret forall c int :: chunk_eq(au, bu, first - i<<3, c)
+//@   useret chunk_diff(au, bu, first - i<<3)
+//@   assertret int(fd) == first ==> int(fd >> 3) == i + (first - i<<3) >> 3 && int(fd & 7) == (first - i<<3) & 7 && 0 <= first - i<<3 && first - i<<3 < 64
+//@   loop 1
+//@     invariant 0 <= i && i & 7 == 0 && la == len(a) && lb == len(b) && minl == 8 * minlen(a, b)
+//@     invariant forall k int :: 0 <= k && k < i && k < la && k < lb ==> a[k] == b[k]
+//@     use forall k int :: be64_at(a[i:], k - i)
+//@     use forall k int :: be64_at(b[i:], k - i)
+
+//@ func FirstDiffBits returns (ds)
+//@   requires len(keys) >= 1 && len(keys) < 1<<40
+//@   requires forall i int :: 0 <= i && i < len(keys) ==> len(keys[i]) < 1<<27
+//@   ensures len(ds) == len(keys) - 1
+//@   ensures forall i int :: 0 <= i && i < len(keys) - 1 ==> fdBytes(keys[i], keys[i+1], ds[i])
+//@   ensures fresh(ds)
+//@   assigns nothing
+//@   loop 1
+//@     invariant 0 <= i && i <= l - 1 && l == len(keys) && len(ds) == l - 1 && fresh(ds)
+//@     invariant forall j int :: 0 <= j && j < i ==> fdBytes(keys[j], keys[j+1], ds[j])
+
+//@ func countPrefixes returns (min, rst)
+//@   witness-gen maxitem = int32(r.Intn(12) + 1)
+//@   witness-gen firstdiffs = func() []int32 { o := make([]int32, len(firstdiffs)); for i := range o { o[i] = int32(r.Intn(40)) }; return o }()
+//@   requires 1 <= maxitem && maxitem < 1<<30
+//@   requires forall k int :: 0 <= k && k < len(firstdiffs) ==> 0 <= firstdiffs[k] && firstdiffs[k] < 1<<30
+//@   ensures isMin(firstdiffs, len(firstdiffs), min)
+//@   ensures len(rst) == int(maxitem)
+//@   ensures forall i int32 :: 0 <= i && i < maxitem ==> rst[int(i)] == 1 + cntlt(firstdiffs, len(firstdiffs), min + i)
+//@   ensures fresh(rst)
+//@   assigns nothing
+//@   loop 1
+//@     invariant -1 <= rangeindex && rangeindex < len(firstdiffs)
+//@     invariant isMin(firstdiffs, rangeindex + 1, min)
+//@   loop 2
+//@     invariant -1 <= rangeindex && rangeindex < len(firstdiffs) && len(counts) == int(maxitem) - 1 && fresh(counts)
+//@     invariant forall d int32 :: 0 <= d && d < maxitem - 1 ==> counts[int(d)] == cnteq(firstdiffs, rangeindex + 1, min + d)
+//@     use cntlt_min(firstdiffs, len(firstdiffs), min)
+//@   loop 3
+//@     invariant 0 <= i && i <= maxitem - 1 && len(rst) == int(maxitem) && fresh(rst) && len(counts) == int(maxitem) - 1
+//@     invariant forall d int32 :: 0 <= d && d < maxitem - 1 ==> counts[int(d)] == cnteq(firstdiffs, len(firstdiffs), min + d)
+//@     invariant forall j int32 :: 0 <= j && j <= i ==> rst[int(j)] == 1 + cntlt(firstdiffs, len(firstdiffs), min + j)
+//@     use cntlt_step(firstdiffs, len(firstdiffs), min + i)
+
+//@ func New returns (sb)
+//@   requires len(keys) >= 1 && len(keys) < 1<<40
+//@   requires forall i int :: 0 <= i && i < len(keys) ==> len(keys[i]) < 1<<27
+//@   ensures sbInv(sb) && sameslice(sb.keys, keys)
+//@   assigns nothing
+
+//@ func SigBits.CountPrefixes returns (min, rst)
+//@   witness-gen sb = func() *SigBits { n := r.Intn(6) + 2; ks := make([]string, n); for i := range ks { b := make([]byte, r.Intn(4)); for j := range b { b[j] = byte(r.Intn(3)) }; ks[i] = string(b) }; return New(ks) }()
+//@   witness-gen keyStart = int32(r.Intn(len(sb.keys) - 1))
+//@   witness-gen keyEnd = keyStart + 2 + int32(r.Intn(len(sb.keys) - int(keyStart) - 1))
+//@   witness-gen maxitem = int32(r.Intn(12) + 1)
+//@   requires sbInv(sb) && 0 <= keyStart && 2 <= keyEnd && keyStart <= keyEnd - 2 && int(keyEnd) <= len(sb.keys)
+//@   requires 1 <= maxitem && maxitem < 1<<30
+//@   ensures isMin(sb.sigbits[int(keyStart):int(keyEnd)-1], int(keyEnd - keyStart) - 1, min)
+//@   ensures len(rst) == int(maxitem)
+//@   ensures forall i int32 :: 0 <= i && i < maxitem ==> rst[int(i)] == 1 + cntlt(sb.sigbits[int(keyStart):int(keyEnd)-1], int(keyEnd - keyStart) - 1, min + i)
+//@   assigns nothing
